@@ -27,7 +27,7 @@ pub static DEF: PropDef = PropDef {
         "jet code words are atoms taken from the jet tables (C14 validates them against C)",
     ],
     shards: (32, 128),
-    budget_ms: (5_000, 20_000),
+    budget_ms: (60_000, 180_000),
 };
 
 pub fn sigma_p(fam: Fam) -> Vec<Sym> {
